@@ -49,8 +49,12 @@ ScopeOf(st, key) == IF key \in st.shared THEN 1 ELSE Len(st.act)
 
 DeclFix(st, key) == IF key \in DOMAIN st.fix THEN st.fix[key] ELSE 0
 
+\* constants: a CONST of a subprogram is local to it, a module-level CONST is visible everywhere
+HasConst(st, n) == n \in DOMAIN Last(st.act).lc \/ n \in DOMAIN st.consts
+GetConst(st, n) == IF n \in DOMAIN Last(st.act).lc THEN Last(st.act).lc[n] ELSE st.consts[n]
+
 GetKey(st, key) ==
-  IF key \in DOMAIN st.consts THEN st.consts[key]
+  IF key[3] = "s" /\ HasConst(st, key[1]) THEN GetConst(st, key[1])
   ELSE LET vars == st.act[ScopeOf(st, key)].vars IN
        IF key \in DOMAIN vars THEN vars[key]
        ELSE IF key[2] = "$" /\ DeclFix(st, key) > 0 THEN Val("$", Blanks(DeclFix(st, key)))
@@ -229,6 +233,11 @@ Eval(e, st) ==
          IF IsErr(a.v) THEN a
          ELSE LET b == Eval(e.r, a.st) IN R(Arith(e.op, a.v, b.v), b.st)
     [] e.k = "err" -> R(Val("I", st.errv), st)
+    [] e.k = "cref" ->   \* reference to a constant, bare or with a type suffix
+         IF ~HasConst(st, e.n) THEN R(Err(0), st)
+         ELSE LET c == GetConst(st, e.n) IN
+              IF e.sfx # "" /\ e.sfx # c.t THEN R(Err(0 - 2), st)   \* wrong suffix: rejected statically
+              ELSE R(c, st)
     [] e.k = "fcall" -> CallFun(e, st)
 
 (***************************************************************************)
@@ -268,7 +277,7 @@ Enter(pi, b, sid, kk) ==
       proc == st.prog.subs[pi]
       base == IF proc.static /\ proc.n \in DOMAIN st.statics THEN st.statics[proc.n] ELSE NoFun
       vars == b.vars @@ base        \* parameters are (re)bound at each call
-      a == [sub |-> proc.n, vars |-> vars, refs |-> b.refs, site |-> sid]
+      a == [sub |-> proc.n, vars |-> vars, refs |-> b.refs, site |-> sid, lc |-> NoFun]
   IN [b.st EXCEPT !.act = Append(@, a),
                   !.k = kk \o <<[f |-> "call"], SeqFrame(proc.body, <<0 - pi, 0>>)>>]
 
@@ -321,8 +330,13 @@ CallFun(e, st) ==
 (***************************************************************************)
 Tick(st) == [st EXCEPT !.fuel = @ - 1]
 
-\* finish a failed evaluation: -1 means the nested run already ended the program
-Fail(st, sid, c) == IF c = -1 THEN st ELSE Raise(st, sid, c)
+\* the static checker rejects the program: nothing runs, nothing is printed
+Reject(st, sid, c) ==
+  [st EXCEPT !.status = "reject", !.code = c, !.estmt = sid, !.out = <<>>, !.stack = <<>>]
+
+\* finish a failed evaluation: -1 means the nested run already ended the program,
+\* -2 that the statement is statically ill-formed
+Fail(st, sid, c) == IF c = -1 THEN st ELSE IF c = -2 THEN Reject(st, sid, 0) ELSE Raise(st, sid, c)
 
 Emit(st, text) ==
   [st EXCEPT !.out = @ \o text, !.col = @ + Len(text)]
@@ -551,11 +565,17 @@ ExecDim(st, s) ==
                 arr == [t |-> "A", et |-> s.t, dims |-> r.v.v, cells |-> [i \in 1..n |-> dv], fix |-> s.fix]
             IN [SetKey(r.st, KeyA(s.n, s.t), arr) EXCEPT !.k = Adv(@)]
 
+\* CONST: the value is that of the expression, converted to the suffix type if there is one.
+\* A constant expression that overflows or divides by zero is rejected before anything runs.
 ExecConst(st, s) ==
   LET r == Eval(s.e, st)
-      c == Cast(s.t, r.v)
-  IN IF IsErr(c) THEN Skip(r.st)
-     ELSE [r.st EXCEPT !.consts = (KeyS(s.n, s.t) :> c) @@ @, !.k = Adv(@)]
+      t == IF s.t = "" THEN r.v.t ELSE s.t
+      c == Cast(t, r.v)
+  IN IF IsErr(r.v) THEN (IF r.v.c \in {6, 11} THEN Reject(r.st, s.id, r.v.c) ELSE Fail(r.st, s.id, r.v.c))
+     ELSE IF IsErr(c) THEN (IF c.c = 6 THEN Reject(r.st, s.id, 6) ELSE Skip(r.st))
+     ELSE IF Len(st.act) > 1
+          THEN [r.st EXCEPT !.act[Len(st.act)].lc = (s.n :> c) @@ @, !.k = Adv(@)]
+          ELSE [r.st EXCEPT !.consts = (s.n :> c) @@ @, !.k = Adv(@)]
 
 \* EXIT SUB / EXIT FUNCTION: drop the frames of the current activation
 ExecExit(st, s) ==
@@ -619,7 +639,7 @@ DataOf(body) ==
 Start(prog, fuel) ==
   [prog |-> prog,
    k |-> <<SeqFrame(prog.main, <<0, 0>>)>>,
-   act |-> <<[sub |-> "", vars |-> NoFun, refs |-> <<>>, site |-> 0]>>,
+   act |-> <<[sub |-> "", vars |-> NoFun, refs |-> <<>>, site |-> 0, lc |-> NoFun]>>,
    statics |-> NoFun, shared |-> {}, consts |-> NoFun, fix |-> NoFun,
    gs |-> <<>>, h |-> [m |-> "none", l |-> ""], ei |-> [on |-> FALSE], errv |-> 0,
    data |-> DataOf(prog.main), dcur |-> 1,
